@@ -105,8 +105,9 @@ def _validate(case):
         for c in (oc, nc):
             assert isinstance(c, list) and len(c) >= 1
             assert all(isinstance(v, int) and not isinstance(v, bool) for v in c)
-            assert c == [0] or all(v > 0 for v in c)
+            assert all(v >= 0 for v in c)
         assert sum(oc) == sum(nc)
+        assert sum(oc) > 0 or (oc == [0] and nc == [0])
     assert case["itemsize"] in ITEMSIZES
     assert case["threshold"] in THRESHOLDS
     assert case["bsl"] in LIMITS
@@ -154,8 +155,8 @@ def chunking_defect(step, shape):
             if tuple(c) != (0,):
                 return "zero-length-axis-not-(0,)"
         else:
-            if any(v <= 0 for v in c):
-                return "non-positive-block"
+            if any(v < 0 for v in c):
+                return "negative-block"
             if sum(c) != n:
                 return "axis-sum-differs"
     return None
@@ -430,6 +431,8 @@ def check_case(case, crosswalk=True):
         labels.append("old!=new")
     if any(c == (0,) for c in old):
         labels.append("zero-length-axis")
+    if any(0 in c and sum(c) > 0 for c in old + new):
+        labels.append("zero-width-blocks")
     if case["bsl"] is None:
         labels.append("limit-from-config")
 
@@ -676,6 +679,14 @@ def run_random(spec, seed, col):
                 nc = C.axis_chunks(d, n, max_blocks=mb)
             if d.bool():
                 oc, nc = nc, oc
+            if n > 0 and d.chance(1, 8):
+                # zero-width blocks (what boolean masks, empty slices and concatenations of empty pieces leave
+                # behind) at the start, inside or at the end of either chunking
+                oc, nc = list(oc), list(nc)
+                for side in d.choice([(oc,), (nc,), (oc, nc)]):
+                    for _ in range(d.int(1, 2)):
+                        where = d.weighted([("end", 3), ("start", 2), ("inside", 2)])
+                        side.insert(len(side) if where == "end" else 0 if where == "start" else d.int(0, len(side)), 0)
             old.append(list(oc))
             new.append(list(nc))
         return {
